@@ -35,5 +35,8 @@ static inline void do_yields(int n) { for (int i = 0; i < n; i++) { myth_yield()
 /* thread creation in a generated flavour (NULL attribute / attribute object with default, parent-first, custom stack),
    optionally with a deferred cancellation request pending in the new thread; returns what myth_create_ex returned */
 int mt_create(myth_thread_t * id, myth_func_t fn, void * arg);
+/* custom data (work-stealing hint) of a thread attribute: attach a pattern of `size` bytes; verify it from inside the thread */
+void mt_cd_attach(myth_thread_attr_t * at, size_t size);
+void mt_cd_verify(size_t size, const char * when);
 
 #endif
